@@ -36,6 +36,9 @@ var (
 	outDir = envOr("VERIF_OUT", envOr("VERIF_DIR", "/verif"))
 )
 
+// bmcSlots bounds the number of BMC solver processes running at the same time.
+var bmcSlots = make(chan struct{}, 12)
+
 // stopCtx is cancelled once some harness instance has reported a finding.
 var stopCtx, stopAll = context.WithCancel(context.Background())
 
@@ -908,6 +911,14 @@ func runBMC(eng *symgo.Engine, cfg symgo.HarnessCfg, j job, tier string) (*symgo
 		wg.Add(1)
 		go func(qi int, q string) {
 			defer wg.Done()
+			// at most bmcSlots solver processes at a time over all harness
+			// instances (each can take a few GB on the 64-bit models)
+			bmcSlots <- struct{}{}
+			defer func() { <-bmcSlots }()
+			if ctx.Err() != nil {
+				out[qi] = qr{q, "unknown", nil, 0}
+				return
+			}
 			r, trace, d := b.Solve(ctx, q, K, time.Duration(to)*time.Second, solver)
 			out[qi] = qr{q, r.String(), trace, d}
 			if r.String() == "sat" && q != "cut" {
